@@ -398,7 +398,11 @@ def line_term(items, actual):
 
 def table_term(tab, actual_rows):
     segs = '; '.join(seg_term(s) for s in tab['segs'])
-    cols = ';\n   '.join('[' + '; '.join(c09fmt.fval(x) for x in col) + ']' for col in tab['cols'])
+    # entries no row reads (index not i*k, i < n) are irrelevant to the expected text: written as NaN to keep the literal small;
+    # the Coq model still selects the index, so reading a wrong one shows up as 'nan'
+    n, k = tab['n'], tab['k']
+    cols = ';\n   '.join('[' + '; '.join(c09fmt.fval(x) if j % k == 0 and j // k < n else 'NaN' for j, x in enumerate(col)) + ']'
+                          for col in tab['cols'])
     rows = '; '.join(f'({qconv.coq_bytes(r)})%string' for r in actual_rows)
     return f'chk_table {tab["n"]} {tab["off"]} {tab["k"]} [{segs}]\n  [{cols}]\n  [{rows}]'
 
